@@ -15,6 +15,7 @@ list alone; the only scheduling-like freedom in the Rust code is the iteration o
 `HashMap` of buckets, which the theorems quantify away by stating the output up to permutation.
 The `agg` correspondence stream and the C18 oracle run the real server in pools of 1..16 threads.
 -/
+import StarModel.Lemmas.Skeleton
 import StarModel.Lemmas.Agg
 import StarModel.Props.C01
 import Mathlib.Data.Multiset.Basic
